@@ -46,11 +46,31 @@ def run(ctx):
         n += 1
         fn(ctx, ip, arm)
     ctx.floor("arm-skeleton", n, 14, "arms with a skeleton row")
-    check_truthy(ctx, lib)
-    check_get_field(ctx, lib)
+    # every arm produces its result only at the tabulated sites: (explicit Ok(..) sites, tail calls)
+    SITES = {"Field": (1, 0), "Identity": (1, 0), "Literal": (1, 0), "Index": (2, 0), "Or": (1, 1), "And": (1, 1), "Not": (1, 0),
+             "Condition": (1, 1), "Comparison": (1, 0), "ObjectValues": (2, 0), "Projection": (2, 0), "Flatten": (2, 0),
+             "MultiList": (2, 0), "MultiHash": (2, 0), "Expref": (1, 0), "Slice": (2, 0), "Subexpr": (0, 1)}
+    for v, (noks, ntails) in SITES.items():
+        arm = ip.arms.get(v)
+        if arm is None:
+            continue
+        rets = early_returns(ip, arm)
+        ctx.check((len(arm.oks), len(arm.tail)) == (noks, ntails), "result-sites", v,
+                  f"{v}: produces its result at exactly {noks} Ok(..) site(s) and {ntails} delegating call(s) (found {len(arm.oks)}, {len(arm.tail)})", ip.b.span)
+    # slices and indexes are core forms too: the reference-tree equivalence of the slice routine (shared with C07)
+    from .. import slicecheck
+    res = slicecheck.verify(lib)
+    seen = {}
+    for key, ok, text, loc in res.items:
+        if key.endswith(("tree-equivalence", "deterministic", "loop-kinds", "empty-array")) or ":loop@" in key:
+            k = key + ("#%d" % seen[key] if key in seen else "")
+            seen[key] = seen.get(key, 0) + 1
+            ctx.check(ok, "slice-routine", k, text, loc)
+    ctx.attempt("check_truthy", check_truthy, ctx, lib)
+    ctx.attempt("check_get_field", check_get_field, ctx, lib)
     m = check_accessors(ctx, lib, "leaf-table")
     ctx.floor("leaf-table", m, 100, "leaf decision paths walked")
-    check_key_order(ctx, lib, ip)
+    ctx.attempt("check_key_order", check_key_order, ctx, lib, ip)
 
 
 def single_ok(arm):
@@ -59,6 +79,29 @@ def single_ok(arm):
 
 def chk(ctx, ip, arm, key, ok, text):
     ctx.check(ok, "arm-skeleton", f"{arm.variant}:{key}", f"{arm.variant}: {text}", ip.b.span)
+
+
+def early_returns(ip, arm):
+    return []
+
+
+def arm_Subexpr(ctx, ip, arm):
+    b = ip.b
+    lhs = [(x, d, nd) for x, d, nd, c in arm.recursive if nd == {("field", NODE, "Subexpr.lhs")}]
+    rhs = [(x, d, nd) for x, d, nd, c in arm.recursive if nd == {("field", NODE, "Subexpr.rhs")}]
+    ok = len(lhs) == 1 and len(rhs) == 1 and not arm.oks and len(arm.tail) == 1 and arm.tail[0][0] == rhs[0][0]
+    chk(ctx, ip, arm, "result", ok, "the result is the right-hand side's evaluation (against the left result), whatever the left result is")
+    if ok:
+        # once the left side succeeded, the right side is always evaluated: no other way to the function's return
+        cont = None
+        for x, t in arm.calls:
+            if t["callee"] == "std::ops::Try::branch" and ip.is_res(ip.o.of_operand(t["args"][0]), "Subexpr.lhs"):
+                ve = ip.br.variant_edges(t["t"])
+                if ve and "Continue" in ve["edges"]:
+                    cont = ve["edges"]["Continue"]
+        rets = [x for x in b.reachable() if b.blocks[x]["term"]["k"] == "return"]
+        uncond = cont is not None and all(r not in reach_avoiding(b, cont, avoid_blocks=[rhs[0][0]]) for r in rets)
+        chk(ctx, ip, arm, "always-evaluates-rhs", uncond, "after the left side succeeded every path evaluates the right side (no shortcut on null or any other left result)")
 
 
 def arm_Field(ctx, ip, arm):
